@@ -352,8 +352,14 @@ func RefHarness(sigs []ref.FunSig) map[string]ref.HarnessFun {
 	}}
 	h["lz_try"] = ref.HarnessFun{Lazy: func(ev *ref.Evaluator, ret *m.Type, a []ref.Thunk) (*m.Val, *ref.Failure) {
 		ev.Trace = append(ev.Trace, "lz_try")
-		if v, f := a[0](); f == nil {
+		v, f := a[0]()
+		if f == nil {
 			return v, nil
+		}
+		if f.Kind == "domain" {
+			// "the language defines nothing here" is not a failure a host function can recover
+			// from in the reference: the whole program is outside the specified domain
+			return nil, f
 		}
 		return a[1]()
 	}}
